@@ -31,6 +31,10 @@ struct CallInfo {
     pub(crate) iteration: usize,
     pub(crate) meta_info: ForInMetaInfo,
     pub(crate) line_context_name: String,
+    /// depth of the function call stack when the loop was entered
+    pub(crate) call_depth: usize,
+    /// true when stored by the end command, i.e. the loop is about to run its next iteration
+    pub(crate) resumed: bool,
 }
 
 fn serialize_forin_meta_info(
@@ -81,6 +85,14 @@ fn serialize_call_info(call_info: &CallInfo, sub_state: &mut HashMap<String, Sta
         "line_context_name".to_string(),
         StateValue::String(call_info.line_context_name.clone()),
     );
+    sub_state.insert(
+        "call_depth".to_string(),
+        StateValue::UnsignedNumber(call_info.call_depth),
+    );
+    sub_state.insert(
+        "resumed".to_string(),
+        StateValue::Boolean(call_info.resumed),
+    );
 }
 
 fn deserialize_call_info(sub_state: &mut HashMap<String, StateValue>) -> Option<CallInfo> {
@@ -109,10 +121,21 @@ fn deserialize_call_info(sub_state: &mut HashMap<String, StateValue>) -> Option<
         None => return None,
     };
 
+    let call_depth = match sub_state.get("call_depth") {
+        Some(StateValue::UnsignedNumber(value)) => *value,
+        _ => 0,
+    };
+    let resumed = match sub_state.get("resumed") {
+        Some(StateValue::Boolean(value)) => *value,
+        _ => false,
+    };
+
     Some(CallInfo {
         iteration,
         meta_info,
         line_context_name,
+        call_depth,
+        resumed,
     })
 }
 
@@ -220,6 +243,7 @@ fn pop_call_info_for_line(
     recursive: bool,
 ) -> Option<CallInfo> {
     let line_context_name = get_line_context_name(state);
+    let call_depth = function::get_call_stack_depth(state);
     let forin_state = get_core_sub_state_for_command(state, FORIN_STATE_KEY.to_string());
     let call_info_stack = get_list(CALL_STACK_STATE_KEY.to_string(), forin_state);
 
@@ -230,6 +254,7 @@ fn pop_call_info_for_line(
                     Some(call_info) => {
                         if (call_info.meta_info.start == line || call_info.meta_info.end == line)
                             && call_info.line_context_name == line_context_name
+                            && call_info.call_depth == call_depth
                         {
                             Some(call_info)
                         } else if recursive {
@@ -315,7 +340,11 @@ impl Command for ForInCommand {
         if context.arguments.len() != 3 || context.arguments[1] != "in" {
             CommandResult::Error("Invalid for/in statement".to_string())
         } else {
-            let call_info = match pop_call_info_for_line(context.line, context.state, false) {
+            // an entry of this loop which was not stored by its end command belongs to an
+            // invocation that was left early (return/goto), it must not be continued
+            let call_info = match pop_call_info_for_line(context.line, context.state, false)
+                .filter(|call_info| call_info.resumed)
+            {
                 Some(call_info) => call_info,
                 None => {
                     let forin_meta_info_result = get_or_create_forin_meta_info_for_line(
@@ -333,6 +362,8 @@ impl Command for ForInCommand {
                                 iteration: 0,
                                 meta_info: forin_meta_info,
                                 line_context_name,
+                                call_depth: function::get_call_stack_depth(context.state),
+                                resumed: false,
                             }
                         }
                         Err(error) => return CommandResult::Crash(error.to_string()),
@@ -341,6 +372,7 @@ impl Command for ForInCommand {
             };
 
             let iteration = call_info.iteration;
+            let call_depth = call_info.call_depth;
             let forin_meta_info = call_info.meta_info;
 
             let handle = &context.arguments[2];
@@ -353,6 +385,8 @@ impl Command for ForInCommand {
                             iteration: iteration + 1,
                             meta_info: forin_meta_info,
                             line_context_name,
+                            call_depth,
+                            resumed: false,
                         },
                         context.state,
                     );
@@ -404,8 +438,9 @@ impl Command for EndForInCommand {
 
     fn run(&self, context: CommandInvocationContext) -> CommandResult {
         match pop_call_info_for_line(context.line, context.state, true) {
-            Some(call_info) => {
+            Some(mut call_info) => {
                 let next_line = call_info.meta_info.start;
+                call_info.resumed = true;
                 store_call_info(&call_info, context.state);
                 CommandResult::GoTo(None, GoToValue::Line(next_line))
             }
